@@ -90,6 +90,71 @@ def check_scan(rep, rule, inst, file, line, it, st, seq, S, first_index, init_wa
     return probs
 
 
+def is_prev_output_scan(seq):
+    return isinstance(seq, SeqScan) and seq.state_syms and all(loc[0] == ('prev',) for loc, _ in seq.state_syms)
+
+
+def check_prev_scan(it, st, seq, S, first, what):
+    """the recurrence stated over the pieces themselves (the state is the piece pushed last — `out.last()`, a slice
+    pattern on the output, `iter::successors`): piece₀ = `first`, piece_ι = S[ι].integral((end_{ι−1}, F_{ι−1}(end_{ι−1}))).
+    first: ('knot', x, y) or ('indefinite',).  Equivalent to the running-knot form by unfolding the knot's definition."""
+    from ..terms import subst_term, subterms, simp, TRUE, FALSE
+    probs = []
+    s = seq.src
+    while isinstance(s, Stream) and s.kind in ('map', 'scan', 'fromfn'):
+        s = s.parts[0]
+    if not (isinstance(s, Stream) and s.kind == 'src' and isinstance(s.parts[0], SliceRef) and
+            s.parts[0].start == ('ic', 0) and s.parts[0].end == ('len', S)):
+        return ['%s scans something else than segments[0..len) in order' % what]
+    i = seq.ivar
+    out = it.abstract(st, seq.out)
+    if not (isinstance(out, tuple) and out[0] == 'struct' and out[1] == 'piecewise::Segment' and len(out) == 4):
+        return ['%s: the pieces are not Segments' % what]
+    nxt = [it.abstract(st, x) for x in seq.next_state]
+    syms = [fv for _, fv in seq.state_syms]
+    p_end = [fv for fv, n_ in zip(syms, nxt) if n_ == out[2]]
+    p_poly = [fv for fv, n_ in zip(syms, nxt) if n_ == out[3]]
+    if len(syms) != 2 or len(p_end) != 1 or len(p_poly) != 1 or p_end[0] == p_poly[0]:
+        return ['%s: the state carried from piece to piece is not (end, poly) of the piece pushed last' % what]
+    pe, pp = p_end[0], p_poly[0]
+
+    def under(t, first_step):
+        asm = {('icmp', 'eq', i, ('ic', 0)): first_step, ('icmp', 'ne', i, ('ic', 0)): not first_step,
+               ('icmp', 'ge', i, ('ic', 1)): not first_step, ('icmp', 'lt', i, ('ic', 1)): first_step,
+               ('icmp', 'gt', i, ('ic', 0)): not first_step}
+
+        def go(x):
+            if not isinstance(x, tuple):
+                return x
+            if x and x[0] in ('sel', 'selv') and len(x) == 4:
+                c = simp(x[1], asm)
+                if c == TRUE:
+                    return go(x[2])
+                if c == FALSE:
+                    return go(x[3])
+            return tuple(go(y) for y in x)
+        r = go(t)
+        return subst_term(r, {i: ('ic', 0)}) if first_step else r
+    e_end = ('elem', S, i, 'end')
+    e_poly = ('elem', S, i, 'poly')
+    want_later = ('struct', 'piecewise::Segment', e_end,
+                  integral_of(e_poly, pe, ('uf', 'poly::Evaluate::evaluate', IO, pp, pe)))
+    got_later = under(out, False)
+    if got_later != want_later:
+        probs.append('%s: piece ι ≥ 1 is %s, expected segments[ι].integral((end, F(end)) of the piece before)' % (what, term_str(got_later)[:300]))
+    e0 = ('elem', S, ('ic', 0), 'end')
+    p0 = ('elem', S, ('ic', 0), 'poly')
+    if first[0] == 'knot':
+        want_first = ('struct', 'piecewise::Segment', e0, integral_of(p0, first[1], first[2]))
+    else:
+        want_first = ('struct', 'piecewise::Segment', e0, ('uf', 'poly::HasIntegral::indefinite', 'T', p0))
+    got_first = under(out, True)
+    if got_first != want_first:
+        probs.append('%s: the first piece is %s, expected %s' % (what, term_str(got_first)[:240],
+                                                                'segments[0].integral(knot0)' if first[0] == 'knot' else 'segments[0].indefinite()'))
+    return probs
+
+
 def strip_empty_split(seq, S):
     """`if segments.is_empty() {empty} else {X}` -> (True if the empty arm is the empty vector else False, X); (None, seq) when there is no split"""
     empty_c = ('icmp', 'eq', ('len', S), ('ic', 0))
@@ -132,6 +197,9 @@ def check(cx):
                     probs.append('first piece is %s, expected segments[0].integral(knot0)' % (it.abstract(st, first),))
                 init = (e0, ('uf', 'poly::Evaluate::evaluate', IO, INT0, e0))
                 probs += check_scan(rep, 'thread', inst, file, line, it, st, seq.parts[1], S, 1, init, 'integral tail')
+            elif is_prev_output_scan(seq):
+                probs = [] if split in (None, True) else ['empty input does not give an empty result']
+                probs += check_prev_scan(it, st, seq, S, ('knot', k0[0], k0[1]), 'integral')
             else:
                 probs = [] if split in (None, True) else ['empty input does not give an empty result']
                 probs += check_scan(rep, 'thread', inst, file, line, it, st, seq, S, 0, k0, 'integral')
@@ -161,9 +229,13 @@ def check(cx):
                 if e_arm != SeqLit(()):
                     probs.append('empty input does not give an empty result')
                 seq = n_arm
+            elif is_prev_output_scan(seq):
+                pass          # one pass over all pieces, the first one told apart inside the step: empty in, empty out
             else:
                 probs.append('no empty/non-empty split')
-            if isinstance(seq, SeqConcat) and len(seq.parts) == 2 and isinstance(seq.parts[0], SeqLit) and len(seq.parts[0].elems) == 1:
+            if is_prev_output_scan(seq):
+                probs += check_prev_scan(it, st, seq, S, ('indefinite',), 'indefinite')
+            elif isinstance(seq, SeqConcat) and len(seq.parts) == 2 and isinstance(seq.parts[0], SeqLit) and len(seq.parts[0].elems) == 1:
                 first = seq.parts[0].elems[0]
                 e0 = ('elem', S, ('ic', 0), 'end')
                 indef0 = ('uf', 'poly::HasIntegral::indefinite', 'T', ('elem', S, ('ic', 0), 'poly'))
